@@ -138,7 +138,7 @@ Definition rhat_value (g : geom) (x : hobj) (ys : list hobj) (geq : bool) (m : r
        | Some cs =>
            let per_var := map (fun k => map (coordchain k) (s_chain x :: cs)) (seq 0 (chain_dim (s_chain x))) in
            VRhat (dict_of (zip (g_names g) per_var))
-                 (match m with RRank => None | _ => Some (map (rhat_sq_opt m) per_var) end)
+                 (match m with RRank [] => None | _ => Some (map (rhat_sq_opt m) per_var) end)
        end.
 
 (* value of an operation, given the objects it reads (in the order of op_targets); None = wrong arity *)
@@ -178,9 +178,25 @@ Definition op_value (g : geom) (o : op) (args : list hobj) : option oval :=
 Definition created (v : oval) : list hobj :=
   match v with VObj o => [o] | VObjs l => l | _ => [] end.
 
-Definition step (g : geom) (o : op) (st : list hobj) : oval * list hobj :=
+(* A history may involve several geometry objects (e.g. the members of a joint sample set have their own):
+   gs is the table of geometries, s_geom of an object is its index in the table.  An operation is evaluated
+   with the geometry of the object it is called on (the first target); conversions and burnthin hand that
+   geometry on to the objects they build.  (OJoint on no members reads no geometry.) *)
+Definition geom_for (gs : list geom) (args : list hobj) : option geom :=
+  match args with
+  | x :: _ => nth_error gs (s_geom x)
+  | [] => Some (mkG [] 1 0 false false false)
+  end.
+
+Definition op_value_gs (gs : list geom) (o : op) (args : list hobj) : option oval :=
+  match geom_for gs args with
+  | Some g => op_value g o args
+  | None => None
+  end.
+
+Definition step (gs : list geom) (o : op) (st : list hobj) : oval * list hobj :=
   match lookup_all st (op_targets o) with
-  | Some args => match op_value g o args with
+  | Some args => match op_value_gs gs o args with
                  | Some v => (v, st ++ created v)
                  | None => (VBadIndex, st)
                  end
@@ -188,14 +204,14 @@ Definition step (g : geom) (o : op) (st : list hobj) : oval * list hobj :=
   end.
 
 (* the trace of a history: value and state after every operation *)
-Fixpoint run (g : geom) (ops : list op) (st : list hobj) : list (oval * list hobj) :=
+Fixpoint run (gs : list geom) (ops : list op) (st : list hobj) : list (oval * list hobj) :=
   match ops with
   | [] => []
-  | o :: r => let p := step g o st in p :: run g r (snd p)
+  | o :: r => let p := step gs o st in p :: run gs r (snd p)
   end.
 
-Definition final (g : geom) (ops : list op) (st : list hobj) : list hobj :=
-  fold_left (fun s o => snd (step g o s)) ops st.
+Definition final (gs : list geom) (ops : list op) (st : list hobj) : list hobj :=
+  fold_left (fun s o => snd (step gs o s)) ops st.
 
 (* ---------------- the geometry comparison compute_rhat relies on ----------------
    Geometry.__eq__ -> _all_values_equal(self, obj): for every attribute (key, value) in vars(self), the
@@ -251,6 +267,6 @@ Fixpoint check_trace (mdl obs : list (oval * list hobj)) : bool :=
 (* `obs` = for every operation, the observed value and the observed stored chain / flags of every live
    object right after it; `bits_intact` = the harness' bit-for-bit comparison of every stored array
    (and of the arrays handed to the constructors) with its bytes at creation, after every operation *)
-Definition check_history (g : geom) (init : list hobj) (ops : list op) (obs : list (oval * list hobj))
+Definition check_history (g : list geom) (init : list hobj) (ops : list op) (obs : list (oval * list hobj))
            (bits_intact : bool) : bool :=
   check_trace (run g ops init) obs && bits_intact.
